@@ -1,9 +1,10 @@
 (* C07 — Price conversion applies the documented rate, and only that rate.
    Statements only; proofs in TkProofs.Price_proofs.
    Model: TkModel.Price (price_lookup.rs make_ctx / convert_prices / metadata, pricedb_parser.rs
-   pricedb_from_str, price_entry.rs Ord/Eq) — as of /repo c696385, i.e. after the fixes of
-   F12 (a posting already in the report commodity is never converted) and
-   F19 (last-price takes every entry, also one stamped at Timestamp::MAX).
+   pricedb_from_str, price_entry.rs Ord/Eq) — as of /repo 71b3628, i.e. after the fixes of
+   F12 (a posting already in the report commodity is never converted),
+   F19 (last-price takes every entry, also one stamped at Timestamp::MAX) and
+   F21 (a self pair of the report commodity enters neither the cache nor the metadata).
    Specification: TkSpec.Price_spec, stated on the price FILE as written (any order of lines):
    RateAt lk f target c t e  =  e is the line of f with base c, eq target, applicable instant
    (txn-time: <= t, given-time: < given, last-price: any) and the maximal instant.
@@ -63,39 +64,28 @@ Theorem C07_no_invention : forall lk txns tgt f t p,
 Proof. exact convert_no_invention. Qed.
 Print Assumptions C07_no_invention.
 
-(* the metadata records = the cache entries: one per commodity used by the transaction set that has a
-   usable line into the report commodity, ascending; in the fixed modes each shows instant and rate
-   (same value) of THE rate (RateAt) of its commodity *)
+(* the metadata records = the cache entries: one per commodity used by the transaction set, other than
+   the report commodity itself, that has a usable line into the report commodity, ascending; in the
+   fixed modes each shows instant and rate (same value) of THE rate (RateAt) of its commodity *)
 Theorem C07_metadata : forall lk txns tgt f,
   distinct_keys f -> MetaSpec lk tgt f txns (metadata (make_ctx lk txns (Some tgt) (load_db f))).
 Proof. exact metadata_spec. Qed.
 Print Assumptions C07_metadata.
 
-(* "the rates shown are the ones applied": every listed record whose source is not the report
-   commodity itself is applied to every posting of the set in that commodity ... *)
-Theorem C07_metadata_applied : forall lk txns tgt f r,
-  distinct_keys f -> is_fixed lk ->
-  In r (metadata (make_ctx lk txns (Some tgt) (load_db f))) -> pr_source r <> tgt ->
-  RecordApplied lk txns tgt f r.
-Proof. exact metadata_applied. Qed.
-Print Assumptions C07_metadata_applied.
-
-(* ... hence every listed record, PROVIDED the file has no self pair of the report commodity *)
+(* "the rates shown are the ones applied", full strength (F21 fixed): EVERY listed record is applied
+   to every posting of the set in its commodity, for every price file *)
 Theorem C07_metadata_all_applied : forall lk txns tgt f r,
-  distinct_keys f -> is_fixed lk -> no_self_pair tgt f ->
+  distinct_keys f -> is_fixed lk ->
   In r (metadata (make_ctx lk txns (Some tgt) (load_db f))) ->
   RecordApplied lk txns tgt f r.
-Proof. exact metadata_all_applied. Qed.
+Proof. exact metadata_applied. Qed.
 Print Assumptions C07_metadata_all_applied.
 
-(* the hypothesis is needed (residual of F12): with `P .. EUR 2 EUR` the record EUR -> EUR, rate 2, is
-   still listed in the metadata although no posting is valued with it *)
-Theorem C07_metadata_all_applied_refuted :
-  exists lk txns tgt f r,
-    distinct_keys f /\ is_fixed lk /\
-    In r (metadata (make_ctx lk txns (Some tgt) (load_db f))) /\ ~ RecordApplied lk txns tgt f r.
-Proof. exact metadata_applied_refuted. Qed.
-Print Assumptions C07_metadata_all_applied_refuted.
+(* in every mode: a self pair of the report commodity is never listed *)
+Theorem C07_metadata_no_self_record : forall lk txns tgt f r,
+  distinct_keys f -> In r (metadata (make_ctx lk txns (Some tgt) (load_db f))) -> pr_source r <> tgt.
+Proof. exact metadata_no_self_record. Qed.
+Print Assumptions C07_metadata_no_self_record.
 
 (* the order of the lines of the price file is irrelevant *)
 Theorem C07_file_order : forall lk target f f' txns,
@@ -128,7 +118,7 @@ Proof. exact meta_ok_b_sound. Qed.
 Print Assumptions C07_meta_oracle_sound.
 
 (* non-vacuity: a shuffled file with inverse and chained pairs satisfies the hypotheses; the three
-   lookups give three different valuations; the inputs of the fixed findings F12 and F19 *)
+   lookups give three different valuations; the inputs of the fixed findings F12, F19 and F21 *)
 Example C07_example :
   distinct_keys ex_file /\ no_self_pair EUR ex_file /\
   ex_show (price_run LkTxnTime (Some EUR) ex_file ex_txns)
@@ -146,5 +136,7 @@ Example C07_example :
   ex_show (price_run LkTxnTime (Some EUR) f12_file f12_txns)
   = [ [ (EUR, 1, 0%N, None); (EUR, -1, 0%N, None) ]; [ (EUR, 3, 0%N, Some (3, 0%N)); (EUR, -3, 0%N, None) ] ] /\
   ex_show (price_run LkLastPrice (Some EUR) tsmax_file tsmax_txns)
-  = [ [ (EUR, 7, 0%N, None); (EUR, -7, 0%N, None) ] ].
+  = [ [ (EUR, 7, 0%N, None); (EUR, -7, 0%N, None) ] ] /\
+  map (fun r => (pr_source r, pr_used r)) (metadata (make_ctx LkLastPrice f12_txns (Some EUR) (load_db f12_file)))
+  = [ (ACME, Some (100, mkDec 3 0)) ].
 Proof. exact price_example. Qed.
